@@ -69,7 +69,14 @@ type DiskE struct {
 	Marks []int `json:"marks"`
 }
 
+type RetryExp struct {
+	Events []Ev    `json:"events"`
+	Err    string  `json:"err"`
+	Disk   []DiskE `json:"disk"`
+}
+
 type Exp struct {
+	Retry      RetryExp `json:"retry"`
 	Events     []Ev     `json:"events"`
 	Err        string   `json:"err"`
 	Seen       []int    `json:"seen"`
@@ -174,8 +181,9 @@ type recMgr struct {
 	idx   int // 1-based position in the Upgrade call
 	ns    walletdb.ReadWriteBucket
 	table []VerE
-	fail  int
+	fail  *int
 	log   *[]Ev
+	vs    []migration.Version // the manager's version table: ONE slice, handed out at every call (as wtxmgr / waddrmgr do)
 }
 
 var _ migration.Manager = (*recMgr)(nil)
@@ -202,12 +210,15 @@ func (m *recMgr) SetVersion(ns walletdb.ReadWriteBucket, v uint32) error {
 	return ns.Put(verKey, be32(v))
 }
 
-// Versions returns the table in its declared order (a fresh slice per call).
+// Versions returns the manager's table in its declared order - the same slice at every call.
 func (m *recMgr) Versions() []migration.Version {
-	return mkVersions(m.table, m.idx, m.fail, m.log)
+	if m.vs == nil {
+		m.vs = mkVersions(m.table, m.idx, m.fail, m.log)
+	}
+	return m.vs
 }
 
-func mkVersions(table []VerE, idx, fail int, log *[]Ev) []migration.Version {
+func mkVersions(table []VerE, idx int, fail *int, log *[]Ev) []migration.Version {
 	vs := make([]migration.Version, 0, len(table))
 	for _, e := range table {
 		e := e
@@ -232,7 +243,7 @@ func mkVersions(table []VerE, idx, fail int, log *[]Ev) []migration.Version {
 				if err := nb.Put([]byte(fmt.Sprintf("n%d", e.N)), []byte{2}); err != nil {
 					return err
 				}
-				if e.N == fail {
+				if fail != nil && e.N == *fail {
 					return errInjected
 				}
 				return nil
@@ -304,7 +315,7 @@ func (c *ctx) runMock(cs *Case, report reporter) (nchecks int, fatal error) {
 					report("panic", fmt.Sprintf("helper panicked on manager %d", i+1), fmt.Sprint(r), nil)
 				}
 			}()
-			vta := migration.VersionsToApply(uint32(m.Stored), mkVersions(m.Table, i+1, 0, nil))
+			vta := migration.VersionsToApply(uint32(m.Stored), mkVersions(m.Table, i+1, nil, nil))
 			got := []int{}
 			for _, v := range vta {
 				got = append(got, int(v.Number))
@@ -314,7 +325,7 @@ func (c *ctx) runMock(cs *Case, report reporter) (nchecks int, fatal error) {
 			if !reflect.DeepEqual(got, want) {
 				report("vta", fmt.Sprintf("VersionsToApply(%d, table of manager %d)", m.Stored, i+1), got, want)
 			}
-			latest := migration.GetLatestVersion(mkVersions(m.Table, i+1, 0, nil))
+			latest := migration.GetLatestVersion(mkVersions(m.Table, i+1, nil, nil))
 			nchecks++
 			if int(latest) != cs.Exp.Latest[i] {
 				report("latest", fmt.Sprintf("GetLatestVersion(table of manager %d)", i+1), latest, cs.Exp.Latest[i])
@@ -324,11 +335,16 @@ func (c *ctx) runMock(cs *Case, report reporter) (nchecks int, fatal error) {
 
 	var log []Ev
 	seen := make([]int, n)
+	recs := make([]*recMgr, n)
+	fails := make([]int, n)
+	for i, m := range cs.Mgrs {
+		fails[i] = m.Fail
+		recs[i] = &recMgr{idx: i + 1, table: m.Table, fail: &fails[i], log: &log}
+	}
 	uerr := walletdb.Update(db, func(tx walletdb.ReadWriteTx) error {
 		mgrs := make([]migration.Manager, n)
-		recs := make([]*recMgr, n)
-		for i, m := range cs.Mgrs {
-			recs[i] = &recMgr{idx: i + 1, ns: tx.ReadWriteBucket(names[i]), table: m.Table, fail: m.Fail, log: &log}
+		for i := range cs.Mgrs {
+			recs[i].ns = tx.ReadWriteBucket(names[i])
 			mgrs[i] = recs[i]
 		}
 		e := safeUpgrade(mgrs...)
@@ -411,6 +427,69 @@ func (c *ctx) runMock(cs *Case, report reporter) (nchecks int, fatal error) {
 		if pre != post {
 			report("data", "database contents differ after a failed / refused upgrade", post, pre)
 		}
+	}
+
+	// 5. the upgrade is called once more: same manager objects (same version tables), same database, the injected
+	//    failure gone - it has to run exactly what is pending now
+	for i := range fails {
+		fails[i] = 0
+	}
+	log = nil
+	rerr := walletdb.Update(db, func(tx walletdb.ReadWriteTx) error {
+		mgrs := make([]migration.Manager, n)
+		for i := range cs.Mgrs {
+			recs[i].ns = tx.ReadWriteBucket(names[i])
+			mgrs[i] = recs[i]
+		}
+		return safeUpgrade(mgrs...)
+	})
+	nchecks++
+	if log == nil {
+		log = []Ev{}
+	}
+	wantRetry := append([]Ev{}, cs.Exp.Retry.Events...)
+	if !reflect.DeepEqual(log, wantRetry) {
+		report("retry-events", "sequence of migration / SetVersion calls of a second upgrade over the same tables", log, wantRetry)
+	}
+	nchecks++
+	if got := errClass(rerr); got != cs.Exp.Retry.Err {
+		class := "retry-err"
+		if strings.HasPrefix(got, "panic:") {
+			class = "panic"
+		}
+		report(class, "error returned by the second upgrade", got, cs.Exp.Retry.Err)
+	}
+	err = walletdb.View(db, func(tx walletdb.ReadTx) error {
+		for i, nm := range names {
+			b := tx.ReadBucket(nm)
+			if b == nil {
+				return fmt.Errorf("bucket %s vanished", nm)
+			}
+			ver := -1
+			if v := b.Get(verKey); len(v) == 4 {
+				ver = int(binary.BigEndian.Uint32(v))
+			}
+			nchecks++
+			if i < len(cs.Exp.Retry.Disk) && ver != cs.Exp.Retry.Disk[i].Ver {
+				report("retry-diskver", fmt.Sprintf("version of manager %d on disk after the second upgrade", i+1), ver, cs.Exp.Retry.Disk[i].Ver)
+			}
+			marks := []int{}
+			for k := 0; k <= 16; k++ {
+				if b.Get([]byte(fmt.Sprintf("m%d", k))) != nil {
+					marks = append(marks, k)
+				}
+			}
+			nchecks++
+			if i < len(cs.Exp.Retry.Disk) {
+				if want := sortedInts(cs.Exp.Retry.Disk[i].Marks); !reflect.DeepEqual(marks, want) {
+					report("retry-marks", fmt.Sprintf("writes of migrations of manager %d on disk after the second upgrade", i+1), marks, want)
+				}
+			}
+		}
+		return nil
+	})
+	if err != nil {
+		return nchecks, err
 	}
 	return nchecks, nil
 }
